@@ -10,7 +10,8 @@ import (
 // C13: a graceful leave is remembered across restarts. Executor and op
 // language: snapshot_common.go. Every life contains a Leave() at a random
 // position (events before and after it), both settings of rejoin-after-leave,
-// every threshold; 30% of the lives run through the real goroutines
+// every threshold; a fifth of the synchronous lives restart beside a stale `.compact`
+// file (left by an earlier failed compaction); 30% of the lives run through the real goroutines
 // (NewSnapshotter, channel, Leave(), shutdown, Wait), which is where the
 // leave handling of stream() lives.
 
@@ -37,6 +38,7 @@ func c13Gen(rng *rand.Rand, tier string) []Case {
 			o.long = true
 			o.maxEvents = 10
 		}
+		o.staleTmp = !o.async && i%5 == 4 // options only: the random stream is the same with and without it
 		out = append(out, snapCase(rng, fmt.Sprintf("l%d", i), o))
 	}
 	return out
@@ -102,6 +104,7 @@ func init() {
 			"× rejoin-after-leave on/off × thresholds {0,1,64,200,128KiB} × unusual names; 30% through the real goroutines (NewSnapshotter/channel/Leave()/Wait), the rest through the synchronous hooks; then shutdown + reopen by the real NewSnapshotter; " +
 			"plus 3 burst cases: 20-30 lives each through the real goroutines with two joins and a backlog of 1000-2000 user events, Leave() and shutdown at once, restart (the leave must always have been recorded); " +
 			"plus the leave-offset sweep: lives through the real goroutines in which the file offset just before Leave() is moved one byte at a time across the compaction threshold (threshold, member-name length, clock-line digits; rejoin on/off), so that the 6-byte `leave` append is the one that compacts; " +
+			"a fifth of the synchronous lives have a stale compaction temp file (an unknown member + clocks, whole or cut short) beside the snapshot at restart; " +
 			"non-trivial = at least one join in the life (the rejoin set before the leave is non-empty or was); distinct = distinct op sequence",
 		Gen:  c13Gen,
 		Exec: snapExec,
